@@ -8,6 +8,8 @@ package proxymux
 // and records, at every quiescent point (synctest.Wait), what is observable at the boundary: Close
 // calls on each fake connection, which sub-listener's Accept returned which connection, Accept errors.
 // Also drives connWithOneByte.Read directly with arbitrary read sizes.
+// A connection's first byte may be preceded by any number of zero-length reads (Read returns (0, nil),
+// which io.Reader permits and record-oriented / wrapped transports produce): "fb"/"re" carry that count.
 
 import (
 	"bytes"
@@ -34,6 +36,7 @@ type c18MConn struct {
 	fb     byte
 	ferr   bool
 	gotFB  bool
+	zeros  int // Read calls that still return (0, nil) before the first byte / the read error
 	chunks [][]byte
 	closes int
 	closed chan struct{}
@@ -48,6 +51,10 @@ func (c *c18MConn) Read(p []byte) (int, error) {
 	}
 	c.mu.Lock()
 	defer c.mu.Unlock()
+	if !c.gotFB && c.zeros > 0 {
+		c.zeros--
+		return 0, nil
+	}
 	if c.ferr {
 		return 0, io.ErrUnexpectedEOF
 	}
@@ -117,6 +124,7 @@ type c18Op struct {
 	Op string `json:"op"`
 	A  int    `json:"a"`
 	B  int    `json:"b"`
+	Z  int    `json:"z"` // fb / re: zero-length reads before the first byte / the error
 	W  bool   `json:"w"`
 }
 
@@ -218,7 +226,7 @@ func c18Mux(t *testing.T, c c18MCase, res map[string]any) {
 	nhanded := map[int]int{}    // conn id -> number of Accept calls that returned it
 	readback := map[int][]byte{} // conn id -> bytes read through the wrapper
 	var handoffs [][2]int       // in order
-	var rops [][]int            // resolved ops: [code, a, b]
+	var rops [][]int            // resolved ops: [code, a, b] (+ zero-length reads for codes 6, 7)
 	var snaps []map[string]any
 	var wg sync.WaitGroup
 
@@ -382,12 +390,13 @@ func c18Mux(t *testing.T, c c18MCase, res map[string]any) {
 			ci := cand[op.A%len(cand)]
 			cn := conns[ci]
 			cn.mu.Lock()
+			cn.zeros = op.Z
 			if op.Op == "fb" {
 				cn.fb = byte(op.B)
-				rops = append(rops, []int{6, ci, op.B})
+				rops = append(rops, []int{6, ci, op.B, op.Z})
 			} else {
 				cn.ferr = true
-				rops = append(rops, []int{7, ci, 0})
+				rops = append(rops, []int{7, ci, 0, op.Z})
 			}
 			cn.mu.Unlock()
 			close(cn.first)
@@ -492,6 +501,14 @@ func c18Mux(t *testing.T, c c18MCase, res map[string]any) {
 		kinds[i] = s.socks
 	}
 	res["kinds"] = kinds
+	// what each handler read through the wrapper (evidence for the replay file; not compared in Coq)
+	rb := map[string]string{}
+	mu.Lock()
+	for id, got := range readback {
+		rb[strconv.Itoa(id)] = vHex(got)
+	}
+	mu.Unlock()
+	res["readback"] = rb
 	res["ok"] = ok
 	res["why"] = why
 }
